@@ -16,12 +16,22 @@
     state they must be allowed.
 (3) The refusal logic of ec_quit / the guard of ec_edit, ec_buffer: the model (quit_scan,
     guard_current) is asked the same question with the observed flags and must predict the
-    observed outcome (exit or not, which buffer becomes current).
+    observed outcome (exit or not, which buffer becomes current).  The model's table is bufs[NBUFS] (NBUFS generated from
+    ex.c): the observed buffers first, the other slots empty, scanned by the array loop ec_quit_tab.
+(4) Round e: histories with NBUFS-1, NBUFS and NBUFS+1 files (gen_many): every file is opened, the modified buffer(s) sit in
+    every slot of the table in turn (the last slot of a full table in particular), then q / x / wq / xa / e / b, `w`, quit
+    again ... until the editor is gone; judged by the same ghost-disk oracle.
+(5) Round f: writes that FAIL (gen_fault): the editor runs under the LD_PRELOAD shim harness/faultshim.c; a dry run gives the
+    open/write/close calls of every command, then one call of a save (mostly the final close() of :w / :wq / :x / :xa / a
+    range write) gets an error.  The ghost disk of a file is its content when last read or last SUCCESSFULLY written: a
+    save with an injected error is not one.  The `*` flag must stay, :q / :e / :b must be refused, nothing may exit.  The
+    model with failing writes (coq/DirtyIoDefs.v, driver model_dirtyio) is asked the same command with the same schedule.
 """
 import itertools, json, os, re, glob
 from concurrent.futures import ProcessPoolExecutor
 import vlib
 from props import c04
+from props import c03
 from props.c04 import hx, E, run_exe, lines_of, parse_op
 
 GROUP = 'undo'
@@ -286,7 +296,121 @@ def gen_long(rng, n, variant):
     return files, cmds
 
 
-def build_script(files, cmds):
+def writes_files(c):
+    return c[0] in ('w', 'wpart', 'wother', 'wjoin') or (c[0] == 'q' and c[1] != 'q')
+
+
+def gen_many(rng, nb, nbufs, slots=None, final=None):
+    """a history over nb files, nb around nbufs = LEN(bufs): every file is opened in turn (the table fills up, with nb > nbufs the
+    least recently used buffer is recycled), the buffers that are modified when they are left end up in the given slots of the
+    table (slot 0 = current, slot nbufs-1 = the last one of a full table); then a quit / :e / :b, `w`, quit again ... until the
+    editor has gone.  slots: where the modified buffers shall sit at the end (None = random, possibly none)."""
+    names = ['g%02d.txt' % i for i in range(1, nb + 1)]
+    files = {n: ('%s%d x\nsecond %d %s\n' % (rng.choice(WORDS), i + 1, i + 1, rng.choice(WORDS))).encode() for i, n in enumerate(names)}
+    nlive = min(nb, nbufs)
+    if slots is None:
+        r = rng.below(8)
+        slots = [] if r == 0 else [nlive - 1] if r < 4 else sorted({rng.below(nlive) for _ in range(rng.choice([1, 1, 2, 3]))})
+    dirty_idx = {nb - sl for sl in slots if 0 <= sl < nlive}           # g_i sits in slot nb - i when all are open
+    uniq = [0]
+    nout = [0]
+
+    def mod():
+        uniq[0] += 1
+        return ('mod', rng.choice(['1s/^/M%d /', '$s/$/ M%d/', '1s/x/Y%d/', '2s/^/N%d /']) % uniq[0], None)
+
+    def other():
+        nout[0] += 1
+        return 'out%d.txt' % nout[0]
+
+    cmds = []
+    for i in range(1, nb + 1):
+        leave = 'e'
+        if i in dirty_idx:
+            sh = rng.below(5)
+            if sh == 0:
+                cmds += [mod(), ('wpart', '1w', None)]                          # part of the buffer written to its own path
+            elif sh == 1:
+                cmds += [mod(), ('w', 'w', None), mod()]
+            elif sh == 2:
+                cmds += [mod(), ('wother', 'w! %s' % other(), None)]
+            else:
+                cmds += [mod()]
+            leave = 'eforce'
+        else:
+            r = rng.below(12)
+            if r == 0:
+                cmds += [mod(), ('w', 'w', None)]
+            elif r == 1:
+                cmds += [mod(), ('u', 'u', None)]
+        if i < nb:
+            cmds.append((leave, ('e! %s' if leave == 'eforce' else 'e %s') % names[i], names[i]))
+    # move buffers around in the table (a refused :b / :e is judged like any other)
+    if rng.chance(1, 3):
+        for _ in range(rng.range(1, 4)):
+            j = rng.range(1, nb)
+            cmds.append(rng.choice([('b', 'b %d' % j, None), ('e', 'e %s' % names[j - 1], names[j - 1]), ('eforce', 'e! %s' % names[j - 1], names[j - 1])]))
+
+    def quit_cmd():
+        f = final or rng.choice(['q', 'q', 'x', 'wq', 'xa', 'wq %s', 'x %s'])
+        if f in ('e', 'b'):
+            j = rng.range(1, nb)
+            return ('b', 'b %d' % j, None) if f == 'b' else ('e', 'e %s' % names[j - 1], names[j - 1])
+        return ('q', f % other() if '%s' in f else f, None)
+
+    cmds.append(quit_cmd())
+    if final in ('e', 'b'):
+        cmds.append(('q', 'q', None))
+    for _ in range(len(dirty_idx) + 1):
+        cmds += [('w', 'w', None), ('q', rng.choice(['q', 'q', 'x', 'wq']), None)]
+    cmds.append(('q', 'q', None))
+    return files, cmds
+
+
+SAVES = [('w', 'w'), ('w', 'w'), ('w', 'w!'), ('q', 'wq'), ('q', 'wq'), ('q', 'x'), ('q', 'x'), ('q', 'xa'), ('q', 'xa'),
+         ('wpart', '1,1w'), ('wpart', '2,$w'), ('wpart', '1,2w')]
+
+
+def gen_fault(rng):
+    """a short history over 1-3 files that ends in: modify, SAVE (:w, :w!, :wq, :x, :xa, a range write), :q, sometimes u, :w!, :q.
+    One call of a save gets an error afterwards (choose_fault)."""
+    files, pre = gen_history(rng, rng.choice([0, 0, 1, 2, 4]))
+    pre = [c for c in pre[:-2] if c[0] not in ('q', 'bulk', 'ubulk')][:5]
+    u = 900 + rng.below(90)
+    kind, text = rng.choice(SAVES)
+    cmds = pre + [('mod', '1s/^/F%d /' % u, None)]
+    if rng.chance(1, 4):
+        cmds.append(('mod', '$s/$/ G%d/' % u, None))
+    cmds.append((kind, text, None))
+    save_step = len(cmds)
+    cmds.append(('q', 'q', None))
+    if rng.chance(1, 3):
+        cmds.append(('u', 'u', None))
+    if rng.chance(1, 4):
+        cmds.append(('q', rng.choice(['x', 'wq']), None))
+    cmds += [('w', 'w!', None), ('q', 'q', None), ('q', 'q', None)]
+    return files, cmds, save_step
+
+
+def choose_fault(rng, calls, save_step):
+    """calls: {step: [(idx, op, err, name, n)]} of the dry run.  Mostly the close() of the SAVE step; also a write() error, a
+    failing open(), a short write (which is retried: no failure), and saves of earlier steps."""
+    steps = [k for k in sorted(calls) if k <= save_step and calls[k]]
+    if not steps:
+        return None
+    k = save_step if (save_step in calls and calls[save_step] and not rng.chance(1, 6)) else rng.choice(steps)
+    cs = calls[k]
+    r = rng.below(20)
+    want = 'close' if r < 13 else 'write' if r < 17 else 'open'
+    cand = [c for c in cs if c[1] == want] or [c for c in cs if c[1] == 'close'] or cs
+    c = rng.choice(cand)
+    if c[1] == 'write' and rng.chance(1, 3):
+        return [(c[0], 'short', max(1, c[4] // 2))]
+    return [(c[0], 'err', rng.choice([28, 5, 122]))]          # ENOSPC, EIO, EDQUOT
+
+
+def build_script(files, cmds, every=False):
+    """every: file snapshots and the line count of the shim log after EVERY command (fault histories)"""
     s = []
     names = sorted(files)
 
@@ -303,9 +427,11 @@ def build_script(files, cmds):
         s.append('ec @@C%d@@' % k)
         s.append(text)
         s.append('ec @@A%d@@' % k)          # still alive after the command
-        if kind in ('w', 'wpart', 'wother', 'wjoin') or (kind == 'q' and text != 'q'):
+        if every or writes_files((kind, text)):
             for j, n in enumerate(names):
-                s.append('w !cp %s snap_%d_%d 2>/dev/null' % (n, k, j))
+                s.append('%%w !cp %s snap_%d_%d 2>/dev/null' % (n, k, j))          # %: does not depend on the current line
+        if every:
+            s.append('%%w !cat shim.log 2>/dev/null | wc -l >nlog_%d' % k)
         observe(k)
     s.append('ec @@END@@')
     s.append('q!')
@@ -348,10 +474,15 @@ def whole_range(loc, n):
     return m is not None and m[0] == 0 and m[1] == n
 
 
-def oracle_history(files, cmds, obs, exited_at, snaps):
-    """The property on the observations.  Returns None or (step, what, expected, observed)."""
+def oracle_history(files, cmds, obs, exited_at, snaps, fault=None, final=None, nbufs=16, notes=None):
+    """The property on the observations.  Returns None or (step, what, expected, observed).
+    fault (histories under the shim): {'status': {step: {file: 'failed' | 'saved'}}} -- the outcome, read off the shim log, of the
+    last save of that file in that step ('failed' = one of its open/write/close calls got an injected error).  The ghost disk of a
+    file is its content when last read or last SUCCESSFULLY written: a failed save does not move it.
+    final: file bytes after the run (for xa, which exits without a later observation).  nbufs = LEN(bufs)."""
     names = sorted(files)
-    content = {n: files[n] for n in names}          # file bytes (ghost disk = file system)
+    content = {n: files[n] for n in names}          # ghost disk: file bytes when last read / last successfully written
+    stale = {}                                      # file -> the real file may differ from the ghost disk (a save of it failed)
     text = {}                                       # path -> text when last current
     state = {}                                      # path -> depth relative to the saved position (int) or None (unknown/gone)
     if not obs:
@@ -365,6 +496,8 @@ def oracle_history(files, cmds, obs, exited_at, snaps):
     prev_cur = curp[0]
 
     def dirty(p):
+        if content.get(p, b'') is None:             # ghost disk unknown (see 'mixed'): neither a refusal nor an allowance is demanded for p
+            return False
         return text[p] != as_text(content.get(p, b''))
 
     for k in range(1, len(cmds) + 1):
@@ -372,12 +505,30 @@ def oracle_history(files, cmds, obs, exited_at, snaps):
         ctext = ctext_full if len(ctext_full) <= 60 else ctext_full[:40] + ' ... (%d lines)' % (ctext_full.count('\n') + 1)
         before_paths = set(text)
         dirty_before = {p: dirty(p) for p in text}
-        saved_state_before = {p: (state.get(p) == 0 and not dirty_before[p]) for p in text}
+        saved_state_before = {p: (state.get(p) == 0 and not dirty_before[p] and content.get(p, b'') is not None) for p in text}
         gone = exited_at == k
+        sv_here = fault['status'].get(k, {}) if fault else {}
         if kind == 'q' and ctext in ('wq', 'x'):
-            # the current buffer is first written whole to its own path (x: if it is reported modified): for the decision it is saved
-            dirty_before[prev_cur] = False
-            saved_state_before[prev_cur] = True
+            # the current buffer is first written whole to its own path (x: if it is reported modified): for the decision it is saved --
+            # under the shim only if the log shows a save of it in this step without an injected error
+            if (sv_here.get(prev_cur) == 'saved') if fault else True:
+                dirty_before[prev_cur] = False
+                saved_state_before[prev_cur] = True
+        if kind == 'q' and ctext == 'xa':
+            # every buffer is written to its own file, then the editor exits (the buffers are not marked saved)
+            if gone:
+                for p in sorted(text):
+                    if sv_here.get(p) == 'failed' and dirty_before[p]:
+                        return (k, ':xa exited although the save of %s failed and its text differs from what the file held when last successfully written' % p,
+                                'no exit; text of %s = %r, last successfully written = %r' % (p, text[p], content.get(p)), 'editor exited')
+                    if final is not None and sv_here.get(p) != 'failed' and as_text(final.get(p) or b'') != text[p]:
+                        return (k, ':xa exited but the file of buffer %s does not hold its text: the changes are discarded' % p,
+                                'file = text %r' % text[p], 'editor exited; file = %r' % final.get(p))
+                return None
+            for p in dirty_before:
+                if (sv_here.get(p) == 'saved') if fault else False:
+                    dirty_before[p] = False
+            saved_state_before = {p: False for p in saved_state_before}         # no demand that xa goes through
         if kind == 'q':
             if any(dirty_before.values()):
                 if gone:
@@ -400,15 +551,45 @@ def oracle_history(files, cmds, obs, exited_at, snaps):
             return (k, 'no current buffer in the listing', '%', lst)
         cur = curl[0]
         listed = {p for (_, _, p, _) in lst}
+        # a full table: :e of a file that is not open recycles the last slot (the least recently used buffer).  More than LEN(bufs)
+        # buffers are outside the property's quantifier; a modified buffer lost that way is DESIGN section 9 row 17 (C20): not judged
+        prevl = obs[k - 1]['listing']
+        if kind in ('e', 'eforce') and len(prevl) >= nbufs and cur == info and info not in {p for (_, _, p, _) in prevl}:
+            ev = prevl[-1][2]
+            if ev in text and ev not in listed:
+                if dirty_before.get(ev):
+                    if notes is not None:
+                        notes['evicted_modified'] = k
+                    return None
+                text.pop(ev)
+                state.pop(ev, None)
+                before_paths.discard(ev)
         # nothing is discarded: every buffer is still there, and a buffer that becomes current again has its text
         for p in before_paths:
             if p not in listed:
                 return (k, 'buffer %s disappeared from the buffer list after %r' % (p, ctext), 'still open', lst)
         # file contents (snapshots exist after writing commands)
-        if kind in ('w', 'wpart', 'wother', 'wjoin') or (kind == 'q' and ctext != 'q'):
+        if fault is None:
+            if kind in ('w', 'wpart', 'wother', 'wjoin') or (kind == 'q' and ctext != 'q'):
+                for j, n in enumerate(names):
+                    sn = snaps.get('snap_%d_%d' % (k, j))
+                    if sn is not None:
+                        content[n] = sn
+        else:
             for j, n in enumerate(names):
                 sn = snaps.get('snap_%d_%d' % (k, j))
-                if sn is not None:
+                if sn is None:
+                    continue
+                if sv_here.get(n) == 'failed':
+                    stale[n] = True                 # not a successful write: the ghost disk stays
+                elif sv_here.get(n) == 'mixed':
+                    stale[n] = True
+                    content[n] = None
+                elif stale.get(n):
+                    if sv_here.get(n) == 'saved' or (kind == 'reload' and prev_cur == n and b'[r]' in o['cmdout']):
+                        content[n] = sn
+                        stale[n] = False
+                else:
                     content[n] = sn
         refused = b'buffer modified' in o['cmdout']
         # refusal of :e other / :b n without ! when the current buffer differs from its file
@@ -424,7 +605,7 @@ def oracle_history(files, cmds, obs, exited_at, snaps):
             elif saved_state_before[prev_cur]:
                 if refused:
                     return (k, '%r was refused although the current buffer %s is in its saved state' % (ctext, prev_cur), 'allowed', 'buffer modified')
-        if kind == 'q' and any(dirty_before.values()):
+        if kind == 'q' and ctext != 'xa' and any(dirty_before.values()):
             starred = {p for (_, _, p, f) in obs[k - 1]['listing'] if f == '*'}
             if not dirty_before.get(cur, False) and cur not in starred:      # a buffer reported modified while equal to its file (e.g. :e! then u) may be the one
                 return (k, ':q was refused but did not switch to a buffer that differs from its file or is reported modified', 'a modified buffer current', cur)
@@ -469,32 +650,90 @@ def oracle_history(files, cmds, obs, exited_at, snaps):
             if p in text and f == ' ' and dirty(p):
                 return (k, 'the buffer list shows %s as unmodified while its text differs from its file (after %r)' % (p, ctext),
                         "'*' (text %r, file %r)" % (text[p], content.get(p)), "' '")
-            if p in text and f == '*' and state.get(p) == 0 and not dirty(p) and kind in ('w', 'reload', 'u', 'r', 'wjoin', 'wpart'):
+            if p in text and f == '*' and state.get(p) == 0 and not dirty(p) and content.get(p, b'') is not None and kind in ('w', 'reload', 'u', 'r', 'wjoin', 'wpart'):
                 return (k, 'the buffer list shows %s as modified in its saved state (after %r)' % (p, ctext), "' '", "'*'")
         prev_cur = cur
     return None
 
 
-def run_history(exe, model_q, files, cmds, timeout=30):
-    script = build_script(files, cmds)
+def parse_shim(files_back, ncmd):
+    """the shim log by step.  Returns (calls, status): calls[k] = [(idx, op, err, name)] of step k in program order;
+    status[k][name] = 'failed' | 'saved' for the LAST open..close group of that file in step k."""
+    log = (files_back.get('shim.log') or b'').decode('latin-1').split('\n')
+    marks = []
+    last = 0
+    for k in range(1, ncmd + 1):
+        v = files_back.get('nlog_%d' % k)
+        try:
+            last = int(v.split()[0]) if v and v.split() else None
+        except ValueError:
+            last = None
+        marks.append(last)
+    total = len([l for l in log if l.strip()])
+    # a missing mark (the editor went away at that step) takes everything that is left
+    for i in range(len(marks)):
+        if marks[i] is None:
+            marks[i] = total
+    calls, status = {}, {}
+    lines = [l for l in log if l.strip()]
+    for ln_no, l in enumerate(lines):
+        w = l.split()
+        if len(w) < 4 or w[0] == '-':
+            continue
+        k = next((i + 1 for i, m in enumerate(marks) if ln_no < m), ncmd)
+        op = w[1]
+        err = (w[2] == 'err') if op != 'write' else (w[3] == 'err')
+        calls.setdefault(k, []).append((int(w[0]), op, err, w[-1], int(w[2]) if op == 'write' else 0))
+    for k, cs in calls.items():
+        groups = {}
+        for (idx, op, err, name, n) in cs:
+            if op == 'open':
+                groups.setdefault(name, []).append(not err)
+            elif err and groups.get(name):
+                groups[name][-1] = False
+        # 'mixed' = a save of the file succeeded and a LATER one of the same step failed (xa writes a modified current buffer twice): the
+        # file was successfully written in between, with a content nobody has seen
+        status[k] = {name: ('saved' if g[-1] else 'failed' if not any(g) else 'mixed') for name, g in groups.items()}
+    return calls, status
+
+
+def run_history(exe, model_q, files, cmds, timeout=30, nbufs=16, shim=None, sched=()):
+    """shim: path of the LD_PRELOAD fault injector (fault histories: snapshots and the shim log after every command);
+    sched: [(call index, 'err' | 'short', errno | count)]"""
+    script = build_script(files, cmds, every=shim is not None)
     names = sorted(files)
-    snapn = ['snap_%d_%d' % (k + 1, j) for k, c in enumerate(cmds) if (c[0] in ('w', 'wpart', 'wother', 'wjoin') or (c[0] == 'q' and c[1] != 'q')) for j in range(len(names))]
-    r = vlib.run_ex(exe, script, files=files, args=names[:1], readback=snapn + names, timeout=timeout)
+    env = None
+    if shim is None:
+        snapn = ['snap_%d_%d' % (k + 1, j) for k, c in enumerate(cmds) if writes_files(c) for j in range(len(names))]
+        extra = []
+    else:
+        snapn = ['snap_%d_%d' % (k + 1, j) for k in range(len(cmds)) for j in range(len(names))]
+        extra = ['nlog_%d' % (k + 1) for k in range(len(cmds))] + ['shim.log']
+        env = {'LD_PRELOAD': shim, 'NVSHIM_TARGETS': ':'.join(names), 'NVSHIM_LOG': 'shim.log',
+               'NVSHIM_SCHED': ','.join('%d:%s:%d' % tuple(x) for x in sched)}
+    r = vlib.run_ex(exe, script, files=files, args=names[:1], readback=snapn + names + extra, timeout=timeout, env=env)
     if r.timed_out or r.crashed():
-        r = vlib.run_ex(exe, script, files=files, args=names[:1], readback=snapn + names, timeout=3 * timeout)
+        r = vlib.run_ex(exe, script, files=files, args=names[:1], readback=snapn + names + extra, timeout=3 * timeout, env=env)
         if r.timed_out or r.crashed():
             return {'status': 'crash', 'what': 'editor crashed or hung (rc=%s timed_out=%s): %s' % (r.rc, r.timed_out, r.err[-400:])}
     obs, exited_at, ended = parse_run(r.out, len(cmds))
-    bad = oracle_history(files, cmds, obs, exited_at, r.files)
+    fault, calls = None, {}
+    if shim is not None:
+        calls, status = parse_shim(r.files, len(cmds))
+        fault = {'status': status}
+    notes = {}
+    bad = oracle_history(files, cmds, obs, exited_at, r.files, fault=fault, final={n: r.files.get(n) for n in names}, nbufs=nbufs, notes=notes)
     # questions for the model of the refusal logic
     qs = []
     for k in range(1, min(len(obs), len(cmds)) + (1 if exited_at else 0)):
         kind = cmds[k - 1][0]
         if kind not in ('q', 'e', 'b') or k - 1 >= len(obs):
             continue
+        if notes.get('evicted_modified') and k >= notes['evicted_modified']:
+            break
         flags = [('1' if f == '*' else '0') for (_, _, _, f) in obs[k - 1]['listing']]
         paths = [p for (_, _, p, _) in obs[k - 1]['listing']]
-        if kind == 'q' and cmds[k - 1][1] in ('wq', 'x'):
+        if kind == 'q' and cmds[k - 1][1] in ('wq', 'x', 'xa'):
             continue
         if kind == 'q':
             if exited_at == k:
@@ -505,8 +744,68 @@ def run_history(exe, model_q, files, cmds, timeout=30):
                     qs.append(('Q ' + ' '.join(flags), 'stay %d' % paths.index(cur[0]), k))
         elif k < len(obs) and not (kind == 'b' and int(cmds[k - 1][1].split()[1]) not in {i for (i, _, _, _) in obs[k - 1]['listing']}):
             qs.append(('G ' + ' '.join(flags), 'refused' if b'buffer modified' in obs[k]['cmdout'] else 'pass', k))
-    return {'status': 'bad' if bad else 'ok', 'bad': bad, 'nobs': len(obs), 'exited_at': exited_at, 'qs': qs,
+    # the first step with an injected error: the same command with the same schedule for the model with failing writes
+    fq = None
+    if shim is not None and sched:
+        fq = fault_question(files, cmds, obs, exited_at, calls, fault['status'])
+    return {'status': 'bad' if bad else 'ok', 'bad': bad, 'nobs': len(obs), 'exited_at': exited_at, 'qs': qs, 'fq': fq, 'calls': calls,
+            'maxbufs': max([len(o['listing']) for o in obs] or [0]), 'notes': notes,
             'refusals': sum(1 for o in obs if b'buffer modified' in o['cmdout']), 'out': r.out[-400:] if bad else b''}
+
+
+WPART_RNG = {'1,1w': (0, 1), '1w': (0, 1), '1,2w': (0, 2)}
+
+
+def fault_question(files, cmds, obs, exited_at, calls, status):
+    """(request line for model_dirtyio, observed answer, step) for the first step in which a call got an injected error or a
+    short count -- None if the command is not one the model has (|-joined lines, writes elsewhere) or the state is not known."""
+    ks = sorted(k for k, cs in calls.items() if any(err for (_, _, err, _, _) in cs))
+    shorts = sorted(k for k, cs in calls.items() if cs)
+    if not ks:
+        return None
+    k = ks[0]
+    if k - 1 >= len(obs) or k > len(cmds):
+        return None
+    kind, ctext, info = cmds[k - 1]
+    before = obs[k - 1]['listing']
+    paths = [p for (_, _, p, _) in before]
+    if not before or before[0][1] != '%':
+        return None
+    n0 = obs[k - 1]['text'].count(b'\n')
+    if kind == 'w' and ctext in ('w', 'w!'):
+        cmd = ctext
+    elif kind == 'wpart' and ctext in WPART_RNG:
+        cmd = 'R%d,%d' % WPART_RNG[ctext]
+    elif kind == 'wpart' and ctext == '2,$w' and n0 >= 2:
+        cmd = 'R1,%d' % n0
+    elif kind == 'q' and ctext in ('wq', 'x', 'xa'):
+        cmd = ctext
+    else:
+        return None
+    # texts: the current buffer's is observed; for the others only the number of write calls matters (one per save here)
+    bufs = []
+    for i, (_, c, pth, f) in enumerate(before):
+        t = as_text(obs[k - 1]['text']) if i == 0 else as_text(files.get(pth, b'x\n'))
+        bufs.append('%s:%s' % ('1' if f == '*' else '0', hx(t)))
+    first = calls[k][0][0]
+    sch = []
+    for (idx, op, err, name, n) in calls[k]:
+        sch.append('e' if err else 'o')
+        if err:
+            break
+    req = 'F %s %s %s' % (cmd, ','.join(sch), ' '.join(bufs))
+    if exited_at == k:
+        ans = 'quit'
+    elif k < len(obs):
+        after = obs[k]['listing']
+        cur = [p for (_, c, p, _) in after if c == '%']
+        fl = {p: ('1' if f == '*' else '0') for (_, _, p, f) in after}
+        if not cur or cur[0] not in paths or any(p not in fl for p in paths):
+            return None
+        ans = 'stay %d %s' % (paths.index(cur[0]), ''.join(fl[p] for p in paths))
+    else:
+        return None
+    return (req, ans, k)
 
 
 # ---------------------------------------------------------------------------------------------
@@ -521,7 +820,10 @@ def run(ctx):
     res.rule = ('lbuf = one operation list (edits, command boundary, undo, redo, whole write, partial own-path write, reload) through the real lbuf_* API and the '
                 'extracted model; flag, result and text compared after every operation; ghost-disk oracle; every list up to length %d over a %d-operation alphabet, '
                 'random lists up to length 50.  history = one vi -s -e run over 1-4 files with the buffer list, the text, the messages and file snapshots observed '
-                'after every command.  non-trivial = a history in which some :q/:e/:b was refused; distinct = distinct history') % (L, len(ALPHA))
+                'after every command; also histories over LEN(bufs)-1, LEN(bufs), LEN(bufs)+1 files with the modified buffer in every slot of the table, and fault '
+                'histories = the same under harness/faultshim.c with an error injected into one open/write/close call of a save (ghost disk = content when '
+                'last read or last SUCCESSFULLY written), each preceded by a dry run that lists the calls.  non-trivial = a history in which some :q/:e/:b was '
+                'refused or a save failed; distinct = distinct history') % (L, len(ALPHA))
 
     def lbuf_fails(init):
         def f(sub):
@@ -537,15 +839,27 @@ def run(ctx):
                        'input': {'kind': 'lbuf', 'init': hx(init), 'ops': small, 'legend': 'E<b>,<e>,<hex> lbuf_edit; M lbuf_modified; U undo; R redo; S whole write (lbuf_saved 0); P partial own-path write (lbuf_unsaved); L reload'},
                        'expected': repr(b2[2]), 'observed': repr(b2[3]), 'answers': out[0] if out else ''})
 
+    nb_box = [16]
+
     def hist_fails(files):
         def f(sub):
-            r = run_history(vi, None, files, sub)
+            r = run_history(vi, None, files, sub, nbufs=nb_box[0])
             return r['status'] == 'bad'
         return f
 
+    def report_fault(files, cmds, sched, r):
+        bad = r['bad']
+        res.violation({'what': 'history with a failing save, command %d (%r): %s' % (bad[0], cmds[bad[0] - 1][1][:60] if 0 < bad[0] <= len(cmds) else '', bad[1]),
+                       'input': {'kind': 'fault-history', 'files': {k: v.decode('latin-1') for k, v in files.items()}, 'cmds': [list(c) for c in cmds],
+                                 'sched': [list(x) for x in sched],
+                                 'legend': 'sched = [call index, err|short, errno|count]: the open/write/close calls on the files are numbered in program order (harness/faultshim.c)'},
+                       'expected': repr(bad[2]), 'observed': repr(bad[3]),
+                       'calls_of_the_faulted_steps': {str(k): [list(c) for c in cs] for k, cs in r.get('calls', {}).items() if any(c[2] for c in cs)},
+                       'output_tail': r['out'].decode('latin-1')})
+
     def report_hist(files, cmds, r):
         small = vlib.shrink(cmds, hist_fails(files), max_steps=100)
-        r2 = run_history(vi, None, files, small)
+        r2 = run_history(vi, None, files, small, nbufs=nb_box[0])
         if r2['status'] != 'bad':
             small, r2 = cmds, r
         bad = r2['bad']
@@ -564,13 +878,33 @@ def run(ctx):
         elif inp.get('kind') == 'history':
             files = {k: v.encode('latin-1') for k, v in inp['files'].items()}
             cmds = [tuple(c) for c in inp['cmds']]
-            r = run_history(vi, None, files, cmds)
+            r = run_history(vi, None, files, cmds, nbufs=nb_box[0])
             res.evaluations += 1
             if r['status'] == 'bad':
                 report_hist(files, cmds, r)
             elif r['status'] == 'crash':
                 res.violation({'what': r['what'], 'input': inp})
+        elif inp.get('kind') == 'fault-history':
+            files = {k: v.encode('latin-1') for k, v in inp['files'].items()}
+            cmds = [tuple(c) for c in inp['cmds']]
+            sched = [tuple(x) for x in inp.get('sched', [])]
+            r = run_history(vi, None, files, cmds, nbufs=nb_box[0], shim=c03.build_shim(), sched=sched)
+            res.evaluations += 1
+            if r['status'] == 'bad':
+                report_fault(files, cmds, sched, r)
+            elif r['status'] == 'crash':
+                res.violation({'what': r['what'], 'input': inp})
 
+    # LEN(bufs): the model's table has NSLOTS = NBUFS slots, NBUFS generated from ex.c by tools/translate.py
+    NB = 16
+    if model:
+        rc, out, err = run_exe(model, ['N'])
+        if rc == 0 and out and out[0].isdigit():
+            NB = int(out[0])
+        else:
+            res.disagree({'what': 'model driver does not answer the table size (N): rc=%d %r' % (rc, out[:1])})
+    nb_box[0] = NB
+    res.extra['LEN(bufs) in the model (generated from ex.c)'] = NB
     if ctx.replay:
         run_input(json.load(open(ctx.replay)).get('input', {}))
         return
@@ -625,7 +959,23 @@ def run(ctx):
             [(n, v) for n in (130, 260, 600, 1000, 2100, 4200, 5000, 8300) for v in range(5)]
     hs += [gen_long(r4, n, v) for n, v in longs]
     res.count('long histories (one block of 130..8300 commands, undone past the start)', len(longs))
-    houts = vlib.pmap(lambda h: run_history(vi, None, h[0], h[1], timeout=60), hs)
+    # round e: LEN(bufs)-1, LEN(bufs), LEN(bufs)+1 files; the modified buffer in every slot of the table, every quit form / :e / :b
+    r5 = rng.fork('many')
+    finals = ['q', 'x', 'wq', 'xa', 'q', 'e', 'b', 'q']
+    many = []
+    for nb in (NB - 1, NB, NB + 1):
+        if nb < 2:
+            continue
+        for sl in range(min(nb, NB)):
+            many.append(gen_many(r5, nb, NB, slots=[sl], final=finals[(sl + nb) % len(finals)]))
+        many.append(gen_many(r5, nb, NB, slots=[min(nb, NB) - 1], final='q'))
+        many.append(gen_many(r5, nb, NB, slots=[min(nb, NB) - 1, 0], final='x'))
+    for _ in range(40 if ctx.quick else 1500):
+        many.append(gen_many(r5, r5.choice([NB - 1, NB, NB, NB, NB + 1, NB + 1, 3, 6]), NB))
+    res.count('histories over LEN(bufs)-1 .. LEN(bufs)+1 files (modified buffer in every slot)', len(many))
+    nmany0 = len(hs)
+    hs += many
+    houts = vlib.pmap(lambda h: run_history(vi, None, h[0], h[1], timeout=60, nbufs=NB), hs)
     questions = []
     nref = 0
     for (files, cmds), r in zip(hs, houts):
@@ -639,6 +989,11 @@ def run(ctx):
         if r['refusals']:
             nref += 1
             res.nontriv(repr((sorted(files.items()), cmds)))
+        if r.get('notes', {}).get('evicted_modified'):
+            res.count('histories not judged past the point where a full table recycled a modified buffer (outside the quantifier, C20 row 17)')
+        if len(files) >= NB and r.get('maxbufs', 0) != NB and r['status'] == 'ok':
+            res.disagree({'what': 'the model\'s table has %d slots (NBUFS generated from ex.c) but with %d files opened the buffer list shows at most %d buffers' % (NB, len(files), r.get('maxbufs', 0)),
+                          'input': {'kind': 'history', 'files': {k: v.decode('latin-1') for k, v in files.items()}, 'cmds': [list(c) for c in cmds]}})
         if r['status'] == 'bad' and sum(1 for v in res.violations if v.get('input', {}).get('kind') == 'history') < 3:
             report_hist(files, cmds, r)
         questions += [(q, a, files, cmds, k) for (q, a, k) in r['qs']]
@@ -657,3 +1012,60 @@ def run(ctx):
                     res.disagree({'what': 'model of ec_quit / the :e :b guard and the implementation decide differently',
                                   'input': {'kind': 'history', 'files': {x: v.decode('latin-1') for x, v in files.items()}, 'cmds': [list(c) for c in cmds]},
                                   'question': q, 'step': k, 'implementation': a, 'model': m})
+
+    # ---- round f: saves that fail (LD_PRELOAD shim): dry run -> the calls of every step -> one call gets an error
+    shim = c03.build_shim()
+    model_f = ctx.model('dirtyio')
+    r6 = rng.fork('fault')
+    fcases = [gen_fault(r6) for _ in range(160 if ctx.quick else 4000)]
+    dry = vlib.pmap(lambda c: run_history(vi, None, c[0], c[1], timeout=60, nbufs=NB, shim=shim, sched=()), fcases)
+    jobs = []
+    for (files, cmds, save_step), d in zip(fcases, dry):
+        res.evaluations += 1
+        if d['status'] == 'crash':
+            res.violation({'what': d['what'] + ' (under the shim, no fault)', 'input': {'kind': 'fault-history', 'files': {k: v.decode('latin-1') for k, v in files.items()}, 'cmds': [list(c) for c in cmds], 'sched': []}})
+            continue
+        if d['status'] == 'bad':
+            if sum(1 for v in res.violations if v.get('input', {}).get('kind') == 'fault-history') < 3:
+                report_fault(files, cmds, [], d)
+            continue
+        sched = choose_fault(r6, d['calls'], save_step)
+        if sched is None:
+            res.count('fault histories without a save call (skipped)')
+            continue
+        jobs.append((files, cmds, sched, save_step, d))
+    fouts = vlib.pmap(lambda j: run_history(vi, None, j[0], j[1], timeout=60, nbufs=NB, shim=shim, sched=j[2]), jobs)
+    fqs = []
+    nfailed = 0
+    for (files, cmds, sched, save_step, d), r in zip(jobs, fouts):
+        res.evaluations += 1
+        inp = {'kind': 'fault-history', 'files': {k: v.decode('latin-1') for k, v in files.items()}, 'cmds': [list(c) for c in cmds], 'sched': [list(x) for x in sched]}
+        if r['status'] == 'crash':
+            res.violation({'what': r['what'] + ' (under the shim, fault %r)' % (sched,), 'input': inp})
+            continue
+        hit = [c for cs in r['calls'].values() for c in cs if c[0] == sched[0][0]]
+        op = hit[0][1] if hit else 'none'
+        res.count('fault: %s %s of %r' % (op, sched[0][1], cmds[save_step - 1][1] if any(c[0] == sched[0][0] for c in r['calls'].get(save_step, [])) else 'an earlier save'))
+        if any(c[2] for cs in r['calls'].values() for c in cs):
+            nfailed += 1
+            res.nontriv(repr((sorted(files.items()), cmds, sched)))
+        if r['status'] == 'bad' and sum(1 for v in res.violations if v.get('input', {}).get('kind') == 'fault-history') < 3:
+            report_fault(files, cmds, sched, r)
+        if r.get('fq'):
+            fqs.append((r['fq'], inp))
+    res.extra['fault_histories_in_which_a_save_failed'] = nfailed
+    if jobs:
+        res.sample({'kind': 'fault-history', 'files': sorted(jobs[0][0]), 'cmds': [c[1] for c in jobs[0][1]], 'sched': [list(x) for x in jobs[0][2]]})
+    if model_f and fqs:
+        rc, out, err = run_exe(model_f, [q[0] for q, _ in fqs])
+        if rc != 0 or len(out) != len(fqs):
+            res.disagree({'what': 'model driver (failing writes): rc=%d, %d answers for %d questions: %s' % (rc, len(out), len(fqs), err[-300:])})
+        else:
+            res.count('failing-save commands answered by the model with failing writes', len(fqs))
+            for ((req, ans, k), inp), m in zip(fqs, out):
+                w = m.split()
+                mans = 'quit' if len(w) >= 2 and w[1] == 'quit' else ('stay %s %s' % (w[2], w[3]) if len(w) >= 4 else m)
+                if mans != ans:
+                    res.disagree({'what': 'model of ec_write / ec_quit under a fault schedule and the implementation differ (exit?, current buffer, modified flags)',
+                                  'input': inp, 'question': req, 'step': k, 'implementation': ans, 'model': m})
+
